@@ -108,7 +108,23 @@ func c15BaseIntegrations() []config.Integration {
 		Unique: [][]string{{"ig_name", "src_name", "block_num", "tx_idx"}}}
 	b.Block = []dig.BlockData{{Name: "tx_hash", Column: "tx_hash"}, {Name: "block_time", Column: "block_time"}}
 	b.Sources = []config.Source{{Name: "src1", Start: 1}}
-	return []config.Integration{a, b}
+	// a second and a third integration writing to iga's table: shared tables are merged for the DDL,
+	// but every integration's own column types, unique and index lists are spliced by Migrate
+	a.Table.Unique = [][]string{{"ig_name", "src_name", "block_num", "tx_idx", "log_idx", "ev_to"}}
+	mk := func(name string) config.Integration {
+		c := config.Integration{Name: name, Enabled: true}
+		c.Table = wpg.Table{Name: "ta", Columns: []wpg.Column{{Name: "ev_to", Type: "bytea"}, {Name: "block_time", Type: "numeric"}},
+			Index: [][]string{{"block_time"}}, Unique: [][]string{{"ig_name", "src_name", "block_num", "tx_idx", "log_idx", "block_time"}}}
+		c.Event = dig.Event{Name: "Transfer", Type: "event", Inputs: []dig.Input{
+			{Indexed: true, Name: "from", Type: "address"},
+			{Indexed: true, Name: "to", Type: "address", Column: "ev_to"},
+			{Name: "value", Type: "uint256"},
+		}}
+		c.Block = []dig.BlockData{{Name: "block_time", Column: "block_time"}}
+		c.Sources = []config.Source{{Name: "src1", Start: 1}}
+		return c
+	}
+	return []config.Integration{mk("igz"), a, b, mk("igc")}
 }
 
 type sqlSink struct {
